@@ -1,5 +1,6 @@
 //! C06 - factory constructors build exactly the message they describe.
 use crate::dom::*;
+use crate::check;
 use crate::nd::Nd;
 use crate::oracle as o;
 use crate::{returned, witness};
@@ -18,8 +19,8 @@ fn check_built<M: ShortMessage>(m: &M, bytes: (u8, u8, u8), structured: bool) {
     } else {
         bytes
     };
-    assert!(b3(m) == reported, "C06 constructor places type, channel and data bytes as described");
-    assert!(observe(m) == expected_obs(bytes, reported), "C06 accessors return exactly the arguments");
+    check!(b3(m) == reported, "C06 constructor places type, channel and data bytes as described");
+    check!(observe(m) == expected_obs(bytes, reported), "C06 accessors return exactly the arguments");
 }
 
 /// Three-argument channel constructors: note_on, note_off, control_change,
@@ -56,25 +57,25 @@ pub fn channel3<N: Nd>(nd: &mut N, which: u8, structured: bool) {
 }
 
 fn check_args3<M: ShortMessage>(m: &M, kind: u8, c: u8, a: u8, b: u8) {
-    assert!(m.channel().map(|x| x.get()) == Some(c), "C06 channel argument returned");
+    check!(m.channel().map(|x| x.get()) == Some(c), "C06 channel argument returned");
     match kind {
         0 | 1 => {
-            assert!(m.key_number().map(|x| x.get()) == Some(a), "C06 key number argument returned");
-            assert!(m.velocity().map(|x| x.get()) == Some(b), "C06 velocity argument returned");
-            assert!(
+            check!(m.key_number().map(|x| x.get()) == Some(a), "C06 key number argument returned");
+            check!(m.velocity().map(|x| x.get()) == Some(b), "C06 velocity argument returned");
+            check!(
                 type_byte_of(m.r#type()) == if kind == 0 { 0x90 } else { 0x80 },
                 "C06 named type"
             );
         }
         2 => {
-            assert!(m.controller_number().map(|x| x.get()) == Some(a), "C06 controller number argument returned");
-            assert!(m.control_value().map(|x| x.get()) == Some(b), "C06 control value argument returned");
-            assert!(type_byte_of(m.r#type()) == 0xB0, "C06 named type");
+            check!(m.controller_number().map(|x| x.get()) == Some(a), "C06 controller number argument returned");
+            check!(m.control_value().map(|x| x.get()) == Some(b), "C06 control value argument returned");
+            check!(type_byte_of(m.r#type()) == 0xB0, "C06 named type");
         }
         _ => {
-            assert!(m.key_number().map(|x| x.get()) == Some(a), "C06 key number argument returned");
-            assert!(m.pressure_amount().map(|x| x.get()) == Some(b), "C06 pressure amount argument returned");
-            assert!(type_byte_of(m.r#type()) == 0xA0, "C06 named type");
+            check!(m.key_number().map(|x| x.get()) == Some(a), "C06 key number argument returned");
+            check!(m.pressure_amount().map(|x| x.get()) == Some(b), "C06 pressure amount argument returned");
+            check!(type_byte_of(m.r#type()) == 0xA0, "C06 named type");
         }
     }
 }
@@ -87,14 +88,14 @@ pub fn channel2<N: Nd>(nd: &mut N, structured: bool) {
     fn go<T: ShortMessageFactory>(c: u8, a: u8, v: u16, structured: bool) {
         let m = T::program_change(chv(c), u7v(a));
         check_built(&m, (0xC0 | c, a, 0), structured);
-        assert!(m.program_number().map(|x| x.get()) == Some(a), "C06 program number argument returned");
-        assert!(m.channel().map(|x| x.get()) == Some(c), "C06 channel argument returned");
+        check!(m.program_number().map(|x| x.get()) == Some(a), "C06 program number argument returned");
+        check!(m.channel().map(|x| x.get()) == Some(c), "C06 channel argument returned");
         let m = T::channel_pressure(chv(c), u7v(a));
         check_built(&m, (0xD0 | c, a, 0), structured);
-        assert!(m.pressure_amount().map(|x| x.get()) == Some(a), "C06 pressure amount argument returned");
+        check!(m.pressure_amount().map(|x| x.get()) == Some(a), "C06 pressure amount argument returned");
         let m = T::pitch_bend_change(chv(c), u14v(v));
         check_built(&m, (0xE0 | c, o::lo7(v), o::hi7(v)), structured);
-        assert!(m.pitch_bend_value().map(|x| x.get()) == Some(v), "C06 pitch bend argument returned (low 7 bits in data byte 1, high 7 bits in data byte 2)");
+        check!(m.pitch_bend_value().map(|x| x.get()) == Some(v), "C06 pitch bend argument returned (low 7 bits in data byte 1, high 7 bits in data byte 2)");
     }
     if structured {
         go::<StructuredShortMessage>(c, a, v, true)
@@ -115,19 +116,19 @@ pub fn system<N: Nd>(nd: &mut N, structured: bool) {
         let fb: U7 = frame.into();
         let m = T::time_code_quarter_frame(frame);
         check_built(&m, (0xF1, fb.get(), 0), structured);
-        assert!(
+        check!(
             m.to_structured() == StructuredShortMessage::TimeCodeQuarterFrame(frame),
             "C06 quarter frame argument returned"
         );
         let m = T::song_position_pointer(u14v(v));
         check_built(&m, (0xF2, o::lo7(v), o::hi7(v)), structured);
-        assert!(
+        check!(
             m.to_structured() == StructuredShortMessage::SongPositionPointer { position: u14v(v) },
             "C06 song position argument returned"
         );
         let m = T::song_select(u7v(a));
         check_built(&m, (0xF3, a, 0), structured);
-        assert!(
+        check!(
             m.to_structured() == StructuredShortMessage::SongSelect { song_number: u7v(a) },
             "C06 song number argument returned"
         );
@@ -227,71 +228,71 @@ pub fn shorthand_ok<N: Nd>(nd: &mut N, group: u8) {
     type R = RawShortMessage;
     match group {
         0 => {
-            assert!(tu::u4(c).get() == c, "C06 shorthand u4");
-            assert!(tu::u7(a).get() == a, "C06 shorthand u7");
-            assert!(tu::u14(v).get() == v, "C06 shorthand u14");
-            assert!(tu::channel(c).get() == c, "C06 shorthand channel");
-            assert!(tu::key_number(a).get() == a, "C06 shorthand key_number");
-            assert!(tu::controller_number(a).get() == a, "C06 shorthand controller_number");
+            check!(tu::u4(c).get() == c, "C06 shorthand u4");
+            check!(tu::u7(a).get() == a, "C06 shorthand u7");
+            check!(tu::u14(v).get() == v, "C06 shorthand u14");
+            check!(tu::channel(c).get() == c, "C06 shorthand channel");
+            check!(tu::key_number(a).get() == a, "C06 shorthand key_number");
+            check!(tu::controller_number(a).get() == a, "C06 shorthand controller_number");
         }
         1 => {
             let s = nd.u8();
             nd.assume(s >= 0x80);
-            assert!(tu::short(s, a, b) == raw_of((s, a, b)), "C06 shorthand short");
-            assert!(tu::note_on(c, a, b) == R::note_on(chv(c), knv(a), u7v(b)), "C06 shorthand note_on");
-            assert!(tu::note_off(c, a, b) == R::note_off(chv(c), knv(a), u7v(b)), "C06 shorthand note_off");
-            assert!(
+            check!(tu::short(s, a, b) == raw_of((s, a, b)), "C06 shorthand short");
+            check!(tu::note_on(c, a, b) == R::note_on(chv(c), knv(a), u7v(b)), "C06 shorthand note_on");
+            check!(tu::note_off(c, a, b) == R::note_off(chv(c), knv(a), u7v(b)), "C06 shorthand note_off");
+            check!(
                 tu::control_change(c, a, b) == R::control_change(chv(c), cnv(a), u7v(b)),
                 "C06 shorthand control_change"
             );
-            assert!(
+            check!(
                 tu::polyphonic_key_pressure(c, a, b) == R::polyphonic_key_pressure(chv(c), knv(a), u7v(b)),
                 "C06 shorthand polyphonic_key_pressure"
             );
         }
         2 => {
-            assert!(tu::program_change(c, a) == R::program_change(chv(c), u7v(a)), "C06 shorthand program_change");
-            assert!(tu::channel_pressure(c, a) == R::channel_pressure(chv(c), u7v(a)), "C06 shorthand channel_pressure");
-            assert!(
+            check!(tu::program_change(c, a) == R::program_change(chv(c), u7v(a)), "C06 shorthand program_change");
+            check!(tu::channel_pressure(c, a) == R::channel_pressure(chv(c), u7v(a)), "C06 shorthand channel_pressure");
+            check!(
                 tu::pitch_bend_change(c, v) == R::pitch_bend_change(chv(c), u14v(v)),
                 "C06 shorthand pitch_bend_change"
             );
-            assert!(
+            check!(
                 tu::song_position_pointer(v) == R::song_position_pointer(u14v(v)),
                 "C06 shorthand song_position_pointer"
             );
-            assert!(tu::song_select(a) == R::song_select(u7v(a)), "C06 shorthand song_select");
+            check!(tu::song_select(a) == R::song_select(u7v(a)), "C06 shorthand song_select");
             let f = any_quarter_frame(nd);
-            assert!(tu::time_code_quarter_frame(f) == R::time_code_quarter_frame(f), "C06 shorthand time_code_quarter_frame");
-            assert!(tu::system_exclusive_start() == R::system_exclusive_start(), "C06 shorthand system_exclusive_start");
-            assert!(tu::tune_request() == R::tune_request(), "C06 shorthand tune_request");
-            assert!(tu::system_exclusive_end() == R::system_exclusive_end(), "C06 shorthand system_exclusive_end");
-            assert!(tu::timing_clock() == R::timing_clock(), "C06 shorthand timing_clock");
-            assert!(tu::start() == R::start(), "C06 shorthand start");
-            assert!(tu::r#continue() == R::r#continue(), "C06 shorthand continue");
-            assert!(tu::stop() == R::stop(), "C06 shorthand stop");
-            assert!(tu::active_sensing() == R::active_sensing(), "C06 shorthand active_sensing");
-            assert!(tu::system_reset() == R::system_reset(), "C06 shorthand system_reset");
+            check!(tu::time_code_quarter_frame(f) == R::time_code_quarter_frame(f), "C06 shorthand time_code_quarter_frame");
+            check!(tu::system_exclusive_start() == R::system_exclusive_start(), "C06 shorthand system_exclusive_start");
+            check!(tu::tune_request() == R::tune_request(), "C06 shorthand tune_request");
+            check!(tu::system_exclusive_end() == R::system_exclusive_end(), "C06 shorthand system_exclusive_end");
+            check!(tu::timing_clock() == R::timing_clock(), "C06 shorthand timing_clock");
+            check!(tu::start() == R::start(), "C06 shorthand start");
+            check!(tu::r#continue() == R::r#continue(), "C06 shorthand continue");
+            check!(tu::stop() == R::stop(), "C06 shorthand stop");
+            check!(tu::active_sensing() == R::active_sensing(), "C06 shorthand active_sensing");
+            check!(tu::system_reset() == R::system_reset(), "C06 shorthand system_reset");
         }
         _ => {
             let n = nd.u8_le(31);
-            assert!(
+            check!(
                 tu::control_change_14_bit(c, n, v) == ControlChange14BitMessage::new(chv(c), cnv(n), u14v(v)),
                 "C06 shorthand control_change_14_bit"
             );
-            assert!(
+            check!(
                 tu::nrpn(c, v, a) == ParameterNumberMessage::non_registered_7_bit(chv(c), u14v(v), u7v(a)),
                 "C06 shorthand nrpn"
             );
-            assert!(
+            check!(
                 tu::nrpn_14_bit(c, v, w) == ParameterNumberMessage::non_registered_14_bit(chv(c), u14v(v), u14v(w)),
                 "C06 shorthand nrpn_14_bit"
             );
-            assert!(
+            check!(
                 tu::rpn(c, v, a) == ParameterNumberMessage::registered_7_bit(chv(c), u14v(v), u7v(a)),
                 "C06 shorthand rpn"
             );
-            assert!(
+            check!(
                 tu::rpn_14_bit(c, v, w) == ParameterNumberMessage::registered_14_bit(chv(c), u14v(v), u14v(w)),
                 "C06 shorthand rpn_14_bit"
             );
@@ -409,5 +410,5 @@ pub fn twin<N: Nd>(nd: &mut N) {
     let c = nd.u8_le(15);
     let v = nd.u16_le(16383);
     let m = RawShortMessage::pitch_bend_change(chv(c), u14v(v));
-    assert!(m.data_byte_1().get() == o::hi7(v), "twin: deliberately swapped halves");
+    check!(m.data_byte_1().get() == o::hi7(v), "twin: deliberately swapped halves");
 }
